@@ -55,13 +55,17 @@ def fock_cases(ctx, n_cases):
         return c
 
     kinds = ["twoModePure", "twoModeMixed", "blasPure1", "blasPure2", "blasMixed1", "blasMixed2", "mix",
-             "partialTrace", "projectResetPure", "projectResetMixed", "axisLists"]
+             "partialTrace", "projectResetPure", "projectResetMixed", "axisLists", "prepareAll", "prepareSome"]
     # all ordered target pairs are cycled through, sizes 2..4 (thorough: 5)
     pair_cycle = {n: itertools.cycle(list(itertools.permutations(range(n), 2))) for n in range(2, 7)}
     for it in range(n_cases):
         kind = kinds[it % len(kinds)]
         D = rng.choice([2, 2, 3])
         pure = kind in ("twoModePure", "blasPure1", "blasPure2", "mix", "projectResetPure")
+        if kind == "prepareAll":
+            pure = rng.random() < 0.5
+        if kind == "prepareSome":
+            pure = False
         nmax = (4 if pure else 3) + (1 if ctx.tier == "thorough" and D == 2 else 0)
         n = rng.randint(2 if "2" in kind or "two" in kind else 1, nmax)
         rank = n if pure else 2 * n
@@ -130,6 +134,31 @@ def fock_cases(ctx, n_cases):
                 return flat(fops.project_reset(ms, xs, st, pure, n, D))
             case = dict(kind=kind, n=n, D=D, modes=ms, xs=xs)
             nontrivial = n >= 2
+        elif kind == "prepareAll":     # Circuit.prepare_multimode on the whole register, modes in any order
+            ms = rng.sample(range(n), n)
+            req.update(kind="prepareAll", modes=ms, mat=[], pure=pure)
+
+            def real(n=n, D=D, pure=pure, st=st, ms=ms):
+                c = circuit(n, D, pure, np.zeros((D,) * (n if pure else 2 * n)))
+                c.prepare_multimode(np.array(st), list(ms))
+                return flat(c._state)
+            case = dict(kind=kind, n=n, D=D, modes=ms, pure=pure)
+            nontrivial = ms != list(range(n))
+        elif kind == "prepareSome":    # … on a proper subset: partial trace, tensor product, argsort transposition
+            n = max(n, 2)
+            rank = 2 * n
+            st = rand_int_tensor(nprng, (D,) * rank, density=rng.choice([1.0, 0.6]))
+            k = rng.randint(1, n - 1)
+            ms = rng.sample(range(n), k)
+            sig = rand_int_tensor(nprng, (D,) * (2 * k), -2, 2)
+            req = dict(op="fock.apply", kind="prepareSome", D=D, n=n, modes=ms, state=flat(st), mat=flat(sig))
+
+            def real(n=n, D=D, st=st, ms=ms, sig=sig):
+                c = circuit(n, D, False, st)
+                c.prepare_multimode(np.array(sig), list(ms))
+                return flat(c._state)
+            case = dict(kind=kind, n=n, D=D, modes=ms)
+            nontrivial = ms != list(range(n - k, n))
         else:  # axisLists: the model's transposition lists must be permutations for every mode choice
             k = rng.randint(1, min(2, n))
             ms = rng.sample(range(n), k)
